@@ -347,8 +347,8 @@ Qed.
 (* ---- the machine's trace follows the discipline -------------------------------------- *)
 Definition linked (sh : shared) (c : cellid) : Prop := exists fs, cell_to sh c = Some fs.
 
-Lemma linked_reset sh c : linked (reset_reg sh) c <-> linked sh c.
-Proof. unfold linked, cell_to. cbn. tauto. Qed.
+Lemma linked_same sh sh' c : heap sh' = heap sh -> (linked sh' c <-> linked sh c).
+Proof. intros E. unfold linked, cell_to. rewrite E. tauto. Qed.
 
 Lemma linked_alloc sh n c : linked (fst (alloc sh n)) c <-> linked sh c.
 Proof.
@@ -371,53 +371,50 @@ Proof.
   - rewrite nth_error_set_nth_neq by congruence. split; [intros H; right; exact H | intros [E|H]; [congruence | exact H]].
 Qed.
 
-Lemma advance_sh sh f rest :
-  fst (advance sh (f :: rest)) =
-  match f_todo f with [] => set_to sh (f_cell f) (rev (f_done f)) | _ :: _ => sh end.
-Proof. unfold advance. destruct (f_todo f); [destruct rest|]; reflexivity. Qed.
+Lemma set_to_length sh c fs : length (heap (set_to sh c fs)) = length (heap sh).
+Proof. unfold set_to. destruct (nth_error (heap sh) c); [cbn; apply set_nth_length | reflexivity]. Qed.
 
-Lemma top_unlinked g sh f rest :
-  wf g sh (cells (f :: rest)) -> frame_ok g sh f ->
-  cell_to sh (f_cell f) = None /\ f_cell f < length (heap sh).
-Proof.
-  intros W (n & dn & B & _). destruct (wf_cells _ _ _ W _ _ B) as (cl & Hc & _ & Hst).
-  split; [|apply nth_error_Some; congruence].
-  unfold cell_to. rewrite Hc. destruct Hst as [[_ H] | [Hnin _]]; [exact H|].
-  exfalso. apply Hnin. left. reflexivity.
-Qed.
+(* the stack of the builder, including the frames that are failing *)
+Definition cs_stack (p : pc) : list frame :=
+  match p with
+  | PRefLookup s | PRefInsert s | PLinked s | PFail s => s
+  | _ => []
+  end.
 
-(* the part of the relation between machine and discipline that concerns the holder t *)
-Definition hrel (t : tid) (sh : shared) (ds : dstate) : Prop :=
-  d_holder ds = Some t /\
-  (forall c, In c (d_written ds) <-> linked sh c) /\
-  (forall c, In c (d_written ds) -> In c (d_vis ds t)).
+Definition next_stack (o : pc + result) : list frame :=
+  match o with inl p' => cs_stack p' | inr _ => [] end.
 
-Lemma hrel_access t sh ds e :
-  hrel t sh ds -> (exists l, (e = ERd t l \/ e = EWr t l) /\ forall c, l <> LCell c) ->
+(* the relation between machine and discipline, for the holder t whose builder's stack is stk:
+   t holds the lock; every linked cell has been written; what has been written is visible to
+   t and lies inside the heap; the cells on the stack are distinct, allocated, and not written yet *)
+Record hrel (t : tid) (sh : shared) (stk : list frame) (ds : dstate) : Prop := mkHrel {
+  h_holder : d_holder ds = Some t;
+  h_linked : forall c, linked sh c -> In c (d_written ds);
+  h_vis : forall c, In c (d_written ds) -> In c (d_vis ds t);
+  h_lt : forall c, In c (d_written ds) -> c < length (heap sh);
+  h_nodup : NoDup (cells stk);
+  h_stack : forall c, In c (cells stk) -> c < length (heap sh) /\ ~ In c (d_written ds)
+}.
+
+Lemma hrel_access t sh stk ds e :
+  hrel t sh stk ds -> (exists l, (e = ERd t l \/ e = EWr t l) /\ forall c, l <> LCell c) ->
   dstep ds e = Some ds.
 Proof.
-  intros (Hh & _) (l & [-> | ->] & Hl); cbn [dstep]; apply holds_spec in Hh; rewrite Hh; [reflexivity|].
+  intros R (l & [-> | ->] & Hl); cbn [dstep]; pose proof (h_holder _ _ _ _ R) as Hh;
+    apply holds_spec in Hh; rewrite Hh; [reflexivity|].
   destruct l; [reflexivity | reflexivity | exfalso; eapply Hl; reflexivity].
 Qed.
 
-Lemma hrel_sh t sh sh' ds : (forall c, linked sh' c <-> linked sh c) -> hrel t sh ds -> hrel t sh' ds.
-Proof. intros E (H1 & H2 & H3). split; [exact H1|]. split; [|exact H3]. intros c. rewrite H2, E. tauto. Qed.
-
-(* advance: the event of linking the completed top frame passes, and keeps the relation *)
-Lemma adv_rel t sh f rest ds :
-  hrel t sh ds -> cell_to sh (f_cell f) = None -> f_cell f < length (heap sh) ->
-  exists ds', drun ds (adv_events t (f :: rest)) = Some ds' /\ hrel t (fst (advance sh (f :: rest))) ds'.
-Proof.
-  intros (Hh & Hw & Hv) Hun Hlt. rewrite advance_sh. unfold adv_events.
-  destruct (f_todo f) as [|m todo'].
-  - cbn [drun dstep]. pose proof Hh as Hh'. apply holds_spec in Hh'. rewrite Hh'.
-    destruct (memb (f_cell f) (d_written ds)) eqn:Em.
-    + apply memb_In in Em. apply Hw in Em. destruct Em as (fs & E). congruence.
-    + eexists. split; [reflexivity|]. split; [exact Hh|]. cbn [d_written d_vis]. split.
-      * intros c. rewrite (linked_set_to _ _ _ _ Hlt). cbn [In]. rewrite Hw. split; intros [E|H]; auto.
-      * intros c [<-|Hin]; rewrite Nat.eqb_refl; [left; reflexivity | right; apply Hv; exact Hin].
-  - exists ds. split; [reflexivity|]. split; [exact Hh|]. split; assumption.
-Qed.
+Lemma acc_rd_map t sh stk ds : hrel t sh stk ds -> dstep ds (ERd t LMap) = Some ds.
+Proof. intros H. eapply hrel_access; eauto. exists LMap. split; [left; reflexivity | discriminate]. Qed.
+Lemma acc_wr_map t sh stk ds : hrel t sh stk ds -> dstep ds (EWr t LMap) = Some ds.
+Proof. intros H. eapply hrel_access; eauto. exists LMap. split; [right; reflexivity | discriminate]. Qed.
+Lemma acc_wr_reg t sh stk ds : hrel t sh stk ds -> dstep ds (EWr t LReg) = Some ds.
+Proof. intros H. eapply hrel_access; eauto. exists LReg. split; [right; reflexivity | discriminate]. Qed.
+Lemma acc_rd_reg t sh stk ds : hrel t sh stk ds -> dstep ds (ERd t LReg) = Some ds.
+Proof. intros H. eapply hrel_access; eauto. exists LReg. split; [left; reflexivity | discriminate]. Qed.
+Lemma acc_rd_cell t sh stk ds c : hrel t sh stk ds -> dstep ds (ERd t (LCell c)) = Some ds.
+Proof. intros R. cbn [dstep]. pose proof (h_holder _ _ _ _ R) as Hh. apply holds_spec in Hh. rewrite Hh. reflexivity. Qed.
 
 Lemma drun_two ds e1 e2 rest :
   dstep ds e1 = Some ds -> dstep ds e2 = Some ds -> drun ds (e1 :: e2 :: rest) = drun ds rest.
@@ -426,87 +423,177 @@ Proof. intros H1 H2. cbn [drun]. rewrite H1, H2. reflexivity. Qed.
 Lemma drun_one ds e rest : dstep ds e = Some ds -> drun ds (e :: rest) = drun ds rest.
 Proof. intros H. cbn [drun]. rewrite H. reflexivity. Qed.
 
-Lemma acc_rd_map t sh ds : hrel t sh ds -> dstep ds (ERd t LMap) = Some ds.
-Proof. intros H. eapply hrel_access; eauto. exists LMap. split; [left; reflexivity | discriminate]. Qed.
-Lemma acc_wr_map t sh ds : hrel t sh ds -> dstep ds (EWr t LMap) = Some ds.
-Proof. intros H. eapply hrel_access; eauto. exists LMap. split; [right; reflexivity | discriminate]. Qed.
-Lemma acc_wr_reg t sh ds : hrel t sh ds -> dstep ds (EWr t LReg) = Some ds.
-Proof. intros H. eapply hrel_access; eauto. exists LReg. split; [right; reflexivity | discriminate]. Qed.
-Lemma acc_rd_cell t sh ds c : hrel t sh ds -> dstep ds (ERd t (LCell c)) = Some ds.
-Proof. intros (Hh & _). cbn [dstep]. apply holds_spec in Hh. rewrite Hh. reflexivity. Qed.
+(* the heap does not change, the stack shrinks or keeps its cells *)
+Lemma hrel_same t sh sh' stk stk' ds :
+  hrel t sh stk ds -> heap sh' = heap sh -> NoDup (cells stk') ->
+  (forall c, In c (cells stk') -> In c (cells stk)) -> hrel t sh' stk' ds.
+Proof.
+  intros [H1 H2 H3 H4 H5 H6] Eh ND Hs. split; [exact H1 | | exact H3 | | exact ND |].
+  - intros c L. apply H2. apply (linked_same sh sh' c Eh). exact L.
+  - rewrite Eh. exact H4.
+  - rewrite Eh. intros c Hc. apply H6. apply Hs. exact Hc.
+Qed.
+
+(* a new cell is allocated and pushed *)
+Lemma hrel_alloc t sh stk stk' n ds :
+  hrel t sh stk ds ->
+  (forall c, In c (cells stk') -> In c (cells stk) \/ c = length (heap sh)) -> NoDup (cells stk') ->
+  hrel t (fst (alloc sh n)) stk' ds.
+Proof.
+  intros [H1 H2 H3 H4 H5 H6] Hs ND. split; [exact H1 | | exact H3 | | exact ND |].
+  - intros c L. apply H2. apply (linked_alloc sh n c). exact L.
+  - intros c Hc. cbn. rewrite app_length. cbn. pose proof (H4 c Hc). lia.
+  - intros c Hc. cbn [fst alloc heap]. rewrite app_length. cbn [length].
+    destruct (Hs c Hc) as [Hin | ->].
+    + destruct (H6 c Hin) as [Hlt Hnw]. split; [lia | exact Hnw].
+    + split; [lia|]. intros Hw. pose proof (H4 _ Hw). lia.
+Qed.
+
+(* the cell on top of the stack gets its To written (linked, or failed), and is popped *)
+Lemma hrel_write t sh sh' f rest ds :
+  hrel t sh (f :: rest) ds -> length (heap sh') = length (heap sh) ->
+  (forall x, linked sh' x -> x = f_cell f \/ linked sh x) ->
+  exists ds', dstep ds (EWr t (LCell (f_cell f))) = Some ds' /\ hrel t sh' rest ds'.
+Proof.
+  intros [H1 H2 H3 H4 H5 H6] El Hl. cbn [dstep]. pose proof H1 as Hh. apply holds_spec in Hh. rewrite Hh.
+  destruct (H6 (f_cell f) (or_introl eq_refl)) as [Hlt Hnw].
+  destruct (memb (f_cell f) (d_written ds)) eqn:Em; [apply memb_In in Em; contradiction|].
+  eexists. split; [reflexivity|]. cbn [cells map] in H5. inversion H5 as [|? ? Hnin NDr]; subst.
+  split; cbn [d_holder d_written d_vis].
+  - exact H1.
+  - intros c L. destruct (Hl c L) as [->|L0]; [left; reflexivity | right; apply H2; exact L0].
+  - intros c [<-|Hin]; rewrite Nat.eqb_refl; [left; reflexivity | right; apply H3; exact Hin].
+  - rewrite El. intros c [<-|Hin]; [exact Hlt | apply H4; exact Hin].
+  - exact NDr.
+  - rewrite El. intros c Hc. destruct (H6 c (or_intror Hc)) as [Hlt' Hnw']. split; [exact Hlt'|].
+    intros [E|Hw]; [subst c; contradiction | contradiction].
+Qed.
+
+Lemma advance_stack sh f rest :
+  cs_stack (snd (advance sh (f :: rest))) =
+  match f_todo f with
+  | [] => rest
+  | m :: _ => if N.eqb m unsupported then rest else f :: rest
+  end.
+Proof.
+  unfold advance. destruct (f_todo f) as [|m todo']; [destruct rest; reflexivity|].
+  destruct (N.eqb m unsupported); [destruct rest; reflexivity | reflexivity].
+Qed.
+
+(* advance: its event passes, and the relation holds for the stack it leaves *)
+Lemma adv_rel t sh f rest ds :
+  hrel t sh (f :: rest) ds ->
+  exists ds', drun ds (adv_events t (f :: rest)) = Some ds' /\
+              hrel t (fst (advance sh (f :: rest))) (cs_stack (snd (advance sh (f :: rest)))) ds'.
+Proof.
+  intros R. rewrite advance_stack. unfold adv_events, advance.
+  destruct (f_todo f) as [|m todo'].
+  - destruct (h_stack _ _ _ _ R (f_cell f) (or_introl eq_refl)) as [Hlt _].
+    destruct (hrel_write t sh (set_to sh (f_cell f) (rev (f_done f))) f rest ds R) as (ds' & Hd & R').
+    + apply set_to_length.
+    + intros x L. apply (linked_set_to sh (f_cell f) (rev (f_done f)) x Hlt). exact L.
+    + exists ds'. cbn [drun]. rewrite Hd. split; [reflexivity|]. destruct rest; exact R'.
+  - destruct (N.eqb m unsupported).
+    + destruct (hrel_write t sh (fail_to sh (f_cell f)) f rest ds R) as (ds' & Hd & R').
+      * reflexivity.
+      * intros x L. right. exact L.
+      * exists ds'. cbn [drun]. rewrite Hd. split; [reflexivity|]. destruct rest; exact R'.
+    + exists ds. split; [reflexivity | exact R].
+Qed.
 
 Lemma fst_let {A B C} (x : A * B) (f : B -> C) : fst (let (a, b) := x in (a, f b)) = fst x.
+Proof. destruct x; reflexivity. Qed.
+Lemma snd_let {A B C} (x : A * B) (f : B -> C) : snd (let (a, b) := x in (a, f b)) = f (snd x).
 Proof. destruct x; reflexivity. Qed.
 
 (* one step inside Schema: its events pass and the relation is kept *)
 Lemma lstep_rel k g n t sh p ds :
-  tinv g sh n p -> hrel t sh ds ->
-  exists ds', drun ds (lstep_events g n t sh p) = Some ds' /\ hrel t (fst (lstep k g n sh p)) ds'.
+  hrel t sh (cs_stack p) ds ->
+  exists ds', drun ds (lstep_events g n t sh p) = Some ds' /\
+              hrel t (fst (lstep k g n sh p)) (next_stack (snd (lstep k g n sh p))) ds'.
 Proof.
-  destruct p as [| | | |stk|stk|stk|c]; cbn [tinv]; intros H R; try contradiction.
+  destruct p as [| | | |stk|stk|stk|c|stk|]; cbn [cs_stack]; intros R.
+  - exists ds. split; [reflexivity | exact R].
+  - exists ds. split; [reflexivity | exact R].
   - (* PLookup *)
-    cbn [lstep lstep_events]. rewrite (drun_one _ _ _ (acc_rd_map _ _ _ R)).
+    cbn [lstep lstep_events]. rewrite (drun_one _ _ _ (acc_rd_map _ _ _ _ R)).
     destruct (lookup (cmap sh) n) as [c|].
-    + rewrite (drun_one _ _ _ (acc_rd_cell _ _ _ c R)). exists ds. split; [reflexivity|].
+    + rewrite (drun_one _ _ _ (acc_rd_cell _ _ _ _ c R)). exists ds. split; [reflexivity|].
       destruct (cell_to sh c); exact R.
     + exists ds. split; [reflexivity | exact R].
   - (* PInsert *)
-    destruct H as [W Hn]. cbn [lstep lstep_events]. unfold alloc.
-    set (sh1 := mkShared (heap sh ++ [mkCell n None]) ((n, length (heap sh)) :: cmap sh) (reg sh ++ [n])).
-    assert (R1 : hrel t sh1 ds).
-    { eapply hrel_sh; [|exact R]. intros c. apply (linked_alloc sh n c). }
-    cbn [app]. rewrite (drun_two _ _ _ _ (acc_wr_map _ _ _ R1) (acc_wr_reg _ _ _ R1)).
+    cbn [lstep lstep_events]. unfold alloc.
     set (f := mkFrame (length (heap sh)) (refs g n) []).
-    destruct (adv_rel t sh1 f [] ds R1) as (ds' & Hd & R').
-    + unfold cell_to. subst sh1 f. cbn [heap f_cell]. rewrite nth_error_snoc. reflexivity.
-    + subst sh1 f. cbn [heap f_cell]. rewrite app_length. cbn. lia.
-    + exists ds'. split; [exact Hd|]. rewrite fst_let. exact R'.
+    assert (R1 : hrel t (fst (alloc sh n)) [f] ds).
+    { apply (hrel_alloc t sh [] [f] n ds R).
+      - intros c [<-|[]]. right. reflexivity.
+      - constructor; [intros [] | constructor]. }
+    unfold alloc in R1. cbn [fst] in R1.
+    cbn [app]. rewrite (drun_two _ _ _ _ (acc_wr_map _ _ _ _ R1) (acc_wr_reg _ _ _ _ R1)).
+    destruct (adv_rel t _ f [] ds R1) as (ds' & Hd & R').
+    exists ds'. split; [exact Hd|]. rewrite fst_let, snd_let. exact R'.
   - (* PRefLookup *)
-    destruct H as (W & [FA ND] & _ & (f & rest & m & todo' & -> & Et)).
-    cbn [lstep lstep_events]. rewrite Et. rewrite (drun_one _ _ _ (acc_rd_map _ _ _ R)).
+    destruct stk as [|f rest]; [exists ds; split; [reflexivity | exact R]|].
+    cbn [lstep lstep_events]. destruct (f_todo f) as [|m todo'] eqn:Et; [exists ds; split; [reflexivity | exact R]|].
+    rewrite (drun_one _ _ _ (acc_rd_map _ _ _ _ R)).
     destruct (lookup (cmap sh) m) as [c|].
     + set (f' := mkFrame (f_cell f) todo' (c :: f_done f)).
-      inversion FA as [|? ? Hf _]; subst.
-      destruct (top_unlinked g sh f rest W Hf) as [Hun Hlt].
-      destruct (adv_rel t sh f' rest ds R Hun Hlt) as (ds' & Hd & R').
-      exists ds'. split; [exact Hd|]. rewrite fst_let. exact R'.
+      assert (R1 : hrel t sh (f' :: rest) ds).
+      { eapply hrel_same; [exact R | reflexivity | exact (h_nodup _ _ _ _ R) | intros x Hx; exact Hx]. }
+      destruct (adv_rel t sh f' rest ds R1) as (ds' & Hd & R').
+      exists ds'. split; [exact Hd|]. rewrite fst_let, snd_let. exact R'.
     + exists ds. split; [reflexivity | exact R].
   - (* PRefInsert *)
-    destruct H as (W & [FA ND] & _ & (f & rest & m & todo' & -> & Et & Hm)).
-    cbn [lstep lstep_events]. rewrite Et. unfold alloc.
-    set (sh1 := mkShared (heap sh ++ [mkCell m None]) ((m, length (heap sh)) :: cmap sh) (reg sh ++ [m])).
-    assert (R1 : hrel t sh1 ds).
-    { eapply hrel_sh; [|exact R]. intros c. apply (linked_alloc sh m c). }
-    cbn [app]. rewrite (drun_two _ _ _ _ (acc_wr_map _ _ _ R1) (acc_wr_reg _ _ _ R1)).
+    destruct stk as [|f rest]; [exists ds; split; [reflexivity | exact R]|].
+    cbn [lstep lstep_events]. destruct (f_todo f) as [|m todo'] eqn:Et; [exists ds; split; [reflexivity | exact R]|].
+    unfold alloc.
     set (fnew := mkFrame (length (heap sh)) (refs g m) []).
-    set (rest' := mkFrame (f_cell f) todo' (length (heap sh) :: f_done f) :: rest).
-    destruct (adv_rel t sh1 fnew rest' ds R1) as (ds' & Hd & R').
-    + unfold cell_to. subst sh1 fnew. cbn [heap f_cell]. rewrite nth_error_snoc. reflexivity.
-    + subst sh1 fnew. cbn [heap f_cell]. rewrite app_length. cbn. lia.
-    + exists ds'. split; [exact Hd|]. rewrite fst_let. exact R'.
+    set (f' := mkFrame (f_cell f) todo' (length (heap sh) :: f_done f)).
+    assert (R1 : hrel t (fst (alloc sh m)) (fnew :: f' :: rest) ds).
+    { apply (hrel_alloc t sh (f :: rest) _ m ds R).
+      - intros c [<-|Hc]; [right; reflexivity | left; exact Hc].
+      - cbn. constructor; [|exact (h_nodup _ _ _ _ R)].
+        intros Hin. destruct (h_stack _ _ _ _ R _ Hin) as [Hlt _]. lia. }
+    unfold alloc in R1. cbn [fst] in R1.
+    cbn [app]. rewrite (drun_two _ _ _ _ (acc_wr_map _ _ _ _ R1) (acc_wr_reg _ _ _ _ R1)).
+    destruct (adv_rel t _ fnew (f' :: rest) ds R1) as (ds' & Hd & R').
+    exists ds'. split; [exact Hd|]. rewrite fst_let, snd_let. exact R'.
   - (* PLinked *)
-    destruct H as (W & [FA ND] & (fb & Hl & _)). cbn [lstep lstep_events].
-    destruct stk as [|f rest]; [discriminate Hl|].
-    inversion FA as [|? ? Hf _]; subst.
-    destruct (top_unlinked g sh f rest W Hf) as [Hun Hlt].
-    destruct (adv_rel t sh f rest ds R Hun Hlt) as (ds' & Hd & R').
-    exists ds'. split; [exact Hd|]. rewrite fst_let. exact R'.
+    cbn [lstep lstep_events]. destruct stk as [|f rest]; [exists ds; split; [reflexivity | exact R]|].
+    destruct (adv_rel t sh f rest ds R) as (ds' & Hd & R').
+    exists ds'. split; [exact Hd|]. rewrite fst_let, snd_let. exact R'.
   - (* PReturn *)
+    cbn [lstep lstep_events]. exists ds. split; [reflexivity | exact R].
+  - (* PFail *)
+    destruct stk as [|f rest]; [exists ds; split; [reflexivity | exact R]|].
+    cbn [lstep lstep_events].
+    destruct (hrel_write t sh (fail_to sh (f_cell f)) f rest ds R) as (ds' & Hd & R').
+    + reflexivity.
+    + intros x L. right. exact L.
+    + exists ds'. cbn [drun]. rewrite Hd. split; [reflexivity|]. cbn [fst snd next_stack].
+      destruct rest; exact R'.
+  - (* PFailRoot *)
     cbn [lstep lstep_events]. exists ds. split; [reflexivity | exact R].
 Qed.
 
+(* ---- the whole machine ------------------------------------------------------------------ *)
 Record rel (st : state) (ds : dstate) : Prop := mkRel {
   r_holder : d_holder ds = s_lock st;
-  r_written : forall c, In c (d_written ds) <-> linked (s_sh st) c;
-  r_vis : forall h, s_lock st = Some h -> forall c, In c (d_written ds) -> In c (d_vis ds h)
+  r_linked : forall c, linked (s_sh st) c -> In c (d_written ds);
+  r_lt : forall c, In c (d_written ds) -> c < length (heap (s_sh st));
+  r_held : forall h th, s_lock st = Some h -> nth_error (s_thr st) h = Some th ->
+      (forall c, In c (d_written ds) -> In c (d_vis ds h)) /\
+      NoDup (cells (cs_stack (t_pc th))) /\
+      (forall c, In c (cells (cs_stack (t_pc th))) -> c < length (heap (s_sh st)) /\ ~ In c (d_written ds))
 }.
 
 Lemma rel_init calls : rel (init calls) d_init.
 Proof.
   split; cbn.
   - reflexivity.
-  - intros c. split; [intros [] | intros (fs & H)]. unfold cell_to in H. cbn in H. destruct c; discriminate H.
-  - intros h H. discriminate H.
+  - intros c (fs & H). unfold cell_to in H. cbn in H. destruct c; discriminate H.
+  - intros c [].
+  - intros h th H. discriminate H.
 Qed.
 
 Lemma Forall2_in_r {A B} (P : A -> B -> Prop) l1 l2 y :
@@ -565,6 +652,24 @@ Proof.
   destruct (t_pc th); try reflexivity. exfalso; apply Hin; left; reflexivity.
 Qed.
 
+(* the new holder w, at cache.lookup with an empty stack, sees everything written so far *)
+Lemma rel_new_holder sh q thr w tw ds :
+  d_holder ds = None ->
+  (forall c, linked sh c -> In c (d_written ds)) ->
+  (forall c, In c (d_written ds) -> c < length (heap sh)) ->
+  nth_error thr w = Some tw -> t_pc tw = PLookup ->
+  rel (mkState sh (Some w) q thr)
+      (mkD (Some w) (d_written ds) (fun u => if Nat.eqb u w then d_written ds else d_vis ds u)).
+Proof.
+  intros Hh Hl Hlt Htw Hp. split; cbn [s_sh s_lock s_thr d_holder d_written d_vis].
+  - reflexivity.
+  - exact Hl.
+  - exact Hlt.
+  - intros h th Eh Hth. inversion Eh; subst h. rewrite Htw in Hth. inversion Hth; subst th.
+    rewrite Hp. cbn [cs_stack cells map]. split; [|split; [constructor | intros c []]].
+    intros c Hc. rewrite Nat.eqb_refl. exact Hc.
+Qed.
+
 Section Rel.
 Variables (k : nat) (g : graph) (calls : list (list name)).
 
@@ -578,55 +683,81 @@ Proof.
   destruct (gi_held _ _ _ _ I t El) as (thh & nh & resth & Hh & Hch & Ti & _).
   rewrite Ht in Hh. inversion Hh; subst thh. clear Hh.
   rewrite Hc in Hch. inversion Hch; subst nh resth. clear Hch.
+  assert (Hnm : n <> unsupported).
+  { eapply (gi_calls_ok _ _ _ _ I); eauto. rewrite Hc. left. reflexivity. }
   rewrite (gstep_inside k g t st th n rest Ht Hc Hin).
   rewrite (gstep_events_inside k g t st th n rest Ht Hc Hin).
-  assert (HR : hrel t (s_sh st) ds).
-  { split; [rewrite (r_holder _ _ R); exact El|]. split; [apply (r_written _ _ R) | apply (r_vis _ _ R); exact El]. }
-  destruct (lstep_rel k g n t (s_sh st) (t_pc th) ds Ti HR) as (ds1 & Hd1 & R1).
-  pose proof (lstep_ok k g n (s_sh st) (t_pc th) Ti) as LO.
+  destruct (r_held _ _ R t th El Ht) as (Hvis & Hnd & Hstk).
+  assert (HR : hrel t (s_sh st) (cs_stack (t_pc th)) ds).
+  { split; [rewrite (r_holder _ _ R); exact El | apply (r_linked _ _ R) | exact Hvis | apply (r_lt _ _ R) | exact Hnd | exact Hstk]. }
+  destruct (lstep_rel k g n t (s_sh st) (t_pc th) ds HR) as (ds1 & Hd1 & R1).
+  pose proof (lstep_ok k g n (s_sh st) (t_pc th) Ti Hnm) as LO.
   assert (Hrc : forall sh' res, lstep k g n (s_sh st) (t_pc th) = (sh', inr res) ->
             match result_cell n (s_sh st) (t_pc th) with
-            | Some c => bound sh' n c
+            | Some c => res = RErr \/ bound sh' n c
             | None => True
             end).
   { intros sh' res E. destruct (t_pc th) eqn:Ep; cbn [result_cell]; try exact Logic.I; cbn [tinv] in Ti.
     - cbn [lstep] in E. destruct (lookup (cmap (s_sh st)) n) as [c|] eqn:Elk; [|inversion E].
-      destruct (cell_to (s_sh st) c); inversion E; subst; exact Elk.
-    - cbn [lstep] in E. inversion E; subst. apply Ti. }
+      destruct (cell_to (s_sh st) c); inversion E; subst; [right; exact Elk | left; reflexivity].
+    - cbn [lstep] in E. inversion E; subst. right. apply Ti. }
   destruct (lstep k g n (s_sh st) (t_pc th)) as [sh' [p'|res]] eqn:El'.
   - (* the call goes on *)
-    rewrite app_nil_r. exists ds1. split; [exact Hd1|]. cbn [fst] in R1.
-    destruct R1 as (H1 & H2 & H3). split; cbn [s_sh s_lock].
+    rewrite app_nil_r. exists ds1. split; [exact Hd1|]. cbn [fst snd next_stack] in R1.
+    destruct R1 as [H1 H2 H3 H4 H5 H6]. split; cbn [s_sh s_lock s_thr].
     + rewrite El. exact H1.
     + exact H2.
-    + intros h Eh. rewrite El in Eh. inversion Eh; subst h. exact H3.
+    + exact H4.
+    + intros h th' Eh Hth. rewrite El in Eh. inversion Eh; subst h.
+      rewrite (nth_set_eq _ _ _ _ Ht) in Hth. inversion Hth; subst th'. cbn [with_pc t_pc].
+      split; [exact H3|]. split; [exact H5 | exact H6].
   - (* the call returns *)
-    destruct LO as [W' ->]. cbn [fst] in R1. specialize (Hrc _ _ eq_refl).
-    rewrite drun_app, Hd1. unfold fin_events, result_solo. cbn [app].
-    rewrite (drun_one _ _ _ (acc_wr_reg _ _ _ R1)).
-    destruct R1 as (H1 & H2 & H3).
+    cbn [fst snd next_stack] in R1. specialize (Hrc _ _ eq_refl).
+    rewrite drun_app, Hd1.
+    (* the end of Schema: its events pass and do not change the discipline's state *)
+    assert (Hfin : forall tail, drun ds1 (fin_events t res ++ tail) = drun ds1 tail).
+    { intros tail. unfold fin_events. destruct res; cbn [app].
+      - rewrite (drun_two _ _ _ _ (acc_rd_reg _ _ _ _ R1) (acc_wr_map _ _ _ _ R1)).
+        apply (drun_one _ _ _ (acc_wr_reg _ _ _ _ R1)).
+      - apply (drun_one _ _ _ (acc_wr_reg _ _ _ _ R1)). }
+    rewrite Hfin.
+    destruct R1 as [H1 H2 H3 H4 _ _].
     cbn [drun dstep]. pose proof H1 as H1'. apply holds_spec in H1'. rewrite H1'.
     set (ds2 := mkD None (d_written ds1) (d_vis ds1)).
-    assert (Hobs : forall tail, drun ds2 (obs_events k t (ROk (gunfold k g n)) sh' (result_cell n (s_sh st) (t_pc th)) ++ tail)
+    assert (Hobs : forall tail, drun ds2 (obs_events k t res sh' (result_cell n (s_sh st) (t_pc th)) ++ tail)
                                 = drun ds2 tail).
-    { intros tail. unfold obs_events. destruct (result_cell n (s_sh st) (t_pc th)) as [c|]; [|reflexivity].
+    { intros tail. unfold obs_events. destruct res as [|tr]; [reflexivity|].
+      destruct (result_cell n (s_sh st) (t_pc th)) as [c|]; [|reflexivity].
+      destruct Hrc as [E|Bc]; [discriminate E|].
+      destruct LO as [(_ & W' & _) | (E & _)]; [|discriminate E].
       apply drun_obs. intros x Hx. cbn [ds2 d_vis]. apply H3. apply H2.
       eapply obs_cells_linked; eauto. }
-    rewrite Hobs. subst ds2. unfold release. cbn [s_sh s_lock s_waitq s_thr finish_shared].
+    rewrite Hobs. subst ds2.
+    (* the cache after the call has the same heap *)
+    assert (Hheap : heap (finish_shared res sh') = heap sh') by (destruct res; reflexivity).
+    assert (Hl' : forall c, linked (finish_shared res sh') c -> In c (d_written ds1)).
+    { intros c L. apply H2. apply (linked_same sh' _ c Hheap). exact L. }
+    assert (Hlt' : forall c, In c (d_written ds1) -> c < length (heap (finish_shared res sh'))).
+    { rewrite Hheap. exact H4. }
+    unfold release. cbn [s_sh s_lock s_waitq s_thr].
     destruct (s_waitq st) as [|w q] eqn:Eq.
     + eexists. split; [reflexivity|]. split; cbn [s_sh s_lock d_holder d_written].
       * reflexivity.
-      * intros c. rewrite H2. symmetry. apply linked_reset.
-      * intros h Eh. discriminate Eh.
+      * exact Hl'.
+      * exact Hlt'.
+      * intros h th' Eh. discriminate Eh.
     + destruct (gi_waitq _ _ _ _ I) as [_ Hw].
       assert (Hwin : In w (s_waitq st)) by (rewrite Eq; left; reflexivity).
       apply Hw in Hwin. destruct Hwin as (tw & Htw & Hpw).
       assert (Hwt : w <> t) by (intros ->; rewrite Ht in Htw; inversion Htw; subst tw; apply Hin; right; exact Hpw).
       rewrite nth_error_set_nth_neq by congruence. rewrite Htw.
-      eexists. split; [apply enter_ok; reflexivity|]. split; cbn [s_sh s_lock d_holder d_written d_vis].
+      eexists. split; [apply enter_ok; reflexivity|].
+      apply rel_new_holder with (tw := with_pc tw PLookup); cbn [d_holder d_written].
       * reflexivity.
-      * intros c. rewrite H2. rewrite !linked_reset. tauto.
-      * intros h Eh. inversion Eh; subst h. intros c Hc'. rewrite Nat.eqb_refl. exact Hc'.
+      * intros c L. apply Hl'. apply (linked_same (finish_shared res sh') _ c eq_refl). exact L.
+      * exact Hlt'.
+      * apply nth_set_eq with (y := tw). rewrite nth_error_set_nth_neq by congruence. exact Htw.
+      * reflexivity.
 Qed.
 
 Lemma gstep_rel st t ds :
@@ -639,13 +770,32 @@ Proof.
   destruct (t_pc th) eqn:Hp.
   - (* PEnter *)
     destruct (s_lock st) as [h|] eqn:El.
-    + exists ds. split; [reflexivity|]. destruct R as [H1 H2 H3]. split; cbn [s_sh s_lock]; rewrite ?El in *; assumption.
-    + destruct R as [H1 H2 H3]. rewrite El in H1.
-      eexists. split; [apply enter_ok; exact H1|]. split; cbn [s_sh s_lock d_holder d_written d_vis].
+    + exists ds. split; [reflexivity|]. destruct R as [H1 H2 H3 H4]. split; cbn [s_sh s_lock s_thr].
+      * rewrite El in H1. exact H1.
+      * exact H2.
+      * exact H3.
+      * intros h' th' Eh Hth. inversion Eh; subst h'.
+        destruct (gi_held _ _ _ _ I h El) as (thh & nh & resth & Hh & _ & Ti & _).
+        assert (t <> h).
+        { intros ->. rewrite Ht in Hh. inversion Hh; subst thh. rewrite Hp in Ti. exact Ti. }
+        rewrite nth_error_set_nth_neq in Hth by congruence. apply H4; [exact El | exact Hth].
+    + destruct R as [H1 H2 H3 H4]. rewrite El in H1.
+      eexists. split; [apply enter_ok; exact H1|].
+      apply rel_new_holder with (tw := with_pc th PLookup).
+      * exact H1.
+      * intros c L. apply H2. apply (linked_same (s_sh st) _ c eq_refl). exact L.
+      * exact H3.
+      * eapply nth_set_eq; eauto.
       * reflexivity.
-      * intros c. rewrite H2. symmetry. apply linked_reset.
-      * intros h' Eh. inversion Eh; subst h'. intros c Hc'. rewrite Nat.eqb_refl. exact Hc'.
   - (* PWait *) exists ds. split; [reflexivity | exact R].
+  - assert (Hin : ~ outside (t_pc th)) by (rewrite Hp; intros [E|E]; discriminate E).
+    destruct (gstep_rel_inside st t th n rest ds I R Ht Hc Hin) as (ds' & Hd & R').
+    unfold gstep_events, gstep in Hd, R'; rewrite Ht, Hc, Hp in Hd, R'.
+    exists ds'; split; [exact Hd | exact R'].
+  - assert (Hin : ~ outside (t_pc th)) by (rewrite Hp; intros [E|E]; discriminate E).
+    destruct (gstep_rel_inside st t th n rest ds I R Ht Hc Hin) as (ds' & Hd & R').
+    unfold gstep_events, gstep in Hd, R'; rewrite Ht, Hc, Hp in Hd, R'.
+    exists ds'; split; [exact Hd | exact R'].
   - assert (Hin : ~ outside (t_pc th)) by (rewrite Hp; intros [E|E]; discriminate E).
     destruct (gstep_rel_inside st t th n rest ds I R Ht Hc Hin) as (ds' & Hd & R').
     unfold gstep_events, gstep in Hd, R'; rewrite Ht, Hc, Hp in Hd, R'.
@@ -685,24 +835,24 @@ Qed.
 
 End Rel.
 
-Theorem guarded_disciplined k g calls sched : disciplined (events Guarded k g calls sched).
+Theorem guarded_disciplined k g calls sched : calls_ok calls -> disciplined (events Guarded k g calls sched).
 Proof.
-  unfold disciplined, events. apply (events_rel k g calls sched (init calls) d_init).
-  - apply ginv_init.
+  intros Hok. unfold disciplined, events. apply (events_rel k g calls sched (init calls) d_init).
+  - apply ginv_init. exact Hok.
   - apply rel_init.
 Qed.
 
 (* no data race in any guarded run, and every To field is written once *)
-Theorem guarded_race_free k g calls sched :
+Theorem guarded_race_free k g calls sched : calls_ok calls ->
   race_free (events Guarded k g calls sched) /\ write_once (events Guarded k g calls sched).
-Proof. apply disciplined_race_free. apply guarded_disciplined. Qed.
+Proof. intros Hok. apply disciplined_race_free. apply guarded_disciplined. exact Hok. Qed.
 
 (* ---- without the lock the model's own trace has a race ------------------------------- *)
 Lemma unguarded_has_race :
-  ~ race_free (events Unguarded 3 [(0%N, [1%N]); (1%N, [])] [[0%N]; [0%N]] [0; 0; 0; 1; 1]).
+  ~ race_free (events Unguarded 3 [(1%N, [2%N]); (2%N, [])] [[1%N]; [1%N]] [0; 0; 0; 1; 1]).
 Proof.
   intros H.
-  assert (E : events Unguarded 3 [(0%N, [1%N]); (1%N, [])] [[0%N]; [0%N]] [0; 0; 0; 1; 1] =
+  assert (E : events Unguarded 3 [(1%N, [2%N]); (2%N, [])] [[1%N]; [1%N]] [0; 0; 0; 1; 1] =
               [EWr 0 LReg; ERd 0 LMap; EWr 0 LMap; ERd 0 LMap; EWr 0 LMap; EWr 0 LReg;
                EWr 1 LReg; ERd 1 LMap; EWr 1 LMap; ERd 1 LMap; ERd 1 (LCell 0); ERd 1 LReg;
                EWr 1 LMap; EWr 1 LReg]) by (vm_compute; reflexivity).
